@@ -889,11 +889,69 @@ def run(ck):
                 nhd += 1
                 key = f"{kind}:{op_strings(op)[0]}" if kind else f"history-other:{op[0]}:{op_strings(op)[0]}"
                 fails.add(key, f"{op} answers {o} after {len(impl.added())} lazily registered names but {of} in a fresh registry",
-                          {"op": op, "warmed": o, "fresh": of, "added": impl.added()[-12:]})
+                          {"op": op, "warmed": o, "fresh": of, "added": impl.added()[-12:],
+                           "earlier_calls": [x for x, _ in ops_terms[:-1]][-40:]})
         add_case("NSeq", CFG, ops_terms, {"sequence": qi, "length": len(ops_terms)})
     ck.count("sequence steps (each compared with the fresh answer)", nh)
     ck.count("history-dependent answers (all matched patterns included)", nhd)
     phase("sequences")
+
+    # ---------------------------------------------------------------- (F2) per-call overrides on ONE registry
+    # case_sensitive= (True/False/None) and as_delta= (True/False/None) given per call must not leak into later
+    # calls (parse cache, lazily registered names): every answer is compared with a fresh registry and the model
+    def unambiguous_ci(text):
+        names = [t for k, t in (lex_ok(text) or []) if k == "name"]
+        return bool(names) and all(casei_domain(n) and n.lower() != "nan"
+                                   and len(fresh.call(("parse", False, n))[1]) <= 1 for n in names)
+
+    ascii_idents = [x for x in idents if x.isascii()]
+    n_ov = 24 if thorough else 8
+    no = nod = 0
+    for qi in range(n_ov):
+        if qi % 4 == 0:
+            impl = Impl()
+        else:
+            impl = seqreg
+            impl.reset()
+        plan = []
+        for _ in range(14):
+            u1 = rng.choice(ascii_idents + nonmult)
+            v = rng.choice([u1.upper(), u1.title(), u1.swapcase(), u1.lower(), u1[:1].upper() + u1[1:], u1])
+            w = rng.choice(ascii_idents)
+            w = rng.choice([w, w.upper(), w.title()])
+            texts = [v, f"{v}*{w}", f"{w}/{v}", f"{v}**2", rng.choice(pk_all) + v]
+            texts = [t for t in texts if IDENT.fullmatch(t.replace("*", "x").replace("/", "x")) and lex_ok(t) is not None and unambiguous_ci(t)]
+            fam = []
+            for t in texts:
+                fam.append(("units", t, rng.choice([None, True, False]), False))          # the override …
+                fam.append(("units", t, rng.choice([None, None, True, False]), None))     # … then the registry's own mode
+                fam.append(("units", t, None, True))
+                if IDENT.fullmatch(t):
+                    fam += [("getattr", t), ("in", t), ("name", False, t), ("name", None, t), ("parse", None, t)]
+            rng.shuffle(fam)
+            plan.append(fam)
+        # interleave the families, keeping each family's internal order
+        ops_terms = []
+        while any(plan):
+            fam = rng.choice([f for f in plan if f])
+            op = fam.pop(0)
+            kind = history_kind(T, impl, op_strings(op))
+            o = impl.call(op)
+            ops_terms.append((op, o))
+            of = fresh.call(op)
+            fresh.reset()
+            no += 1
+            ck.case(key=("override-seq", op), nontrivial=True)
+            if of != o:
+                nod += 1
+                key = f"{kind}:{op_strings(op)[0]}" if kind else f"history-other:{op[0]}:{op[1] if op[0] in ('units', 'getattr', 'in') else op[2]}"
+                fails.add(key, f"{op} answers {o} after earlier calls with per-call overrides on the same registry, but {of} in a fresh registry",
+                          {"op": op, "warmed": o, "fresh": of, "added": impl.added()[-12:],
+                           "earlier_calls": [x for x, _ in ops_terms[:-1]][-40:]})
+        add_case("NSeq", CFG, ops_terms, {"override sequence": qi, "length": len(ops_terms)})
+    ck.count("override-sequence steps (case_sensitive= / as_delta= per call, compared with the fresh answer)", no)
+    ck.count("override-sequence answers that differ from the fresh registry", nod)
+    phase("override sequences")
 
     # ---------------------------------------------------------------- (G) generated registries with colliding spellings
     gen_results = generated_registries(ck, rng, fails, symexact, 10 if thorough else 3)
@@ -1071,7 +1129,15 @@ def replay(ck, path):
         print("(generated registry: load the 'definitions' text with pint.UnitRegistry(<file>) to reproduce)")
         return 0
     impl = Impl()
-    if "op" in rp and "added" in rp:
+    def tup(x):
+        return tuple(x)
+    if "op" in rp and rp.get("earlier_calls"):
+        for c in rp["earlier_calls"]:
+            impl.call(tup(c))
+        print("after the earlier calls:", impl.call(tup(rp["op"])))
+        impl.reset()
+        print("fresh:", impl.call(tup(rp["op"])))
+    elif "op" in rp and "added" in rp:
         for k in rp["added"]:
             impl.call(("name", None, k))
         print("after warm-up:", impl.call(tuple(rp["op"])))
